@@ -169,6 +169,15 @@ func loopFacts(s *src, f *facts) {
 		}
 	}
 	f.b("reqCallErrSetErr", callErr, s.pos(call))
+	handlerRecovers := false
+	if hl != nil {
+		for _, d := range allShallow[*ast.DeferStmt](hl, nil) {
+			if len(s.callsTo(d, "recover")) > 0 && len(s.callsTo(d, "setErr")) > 0 && before(d, call) {
+				handlerRecovers = true
+			}
+		}
+	}
+	f.b("reqHandlerRecovers", handlerRecovers, s.pos(hl))
 	// response literals
 	lits := all(hl, func(c *ast.CompositeLit) bool { return strings.HasPrefix(s.str(c.Type), "utils.Response[") })
 	callOK := len(lits) > 0
